@@ -36,6 +36,31 @@ func IsZeroExtended32(v Value) bool  { return verif_ghost_map("M:uext32", uint64
 func ZeroExtendedFrom(v Value) Value { return Value(verif_ghost_map("M:uextArg", uint64(v))) }
 func isUExt32(i *Instruction) bool   { return i.opcode == OpcodeUExtend && i.u1 == 32<<8|64 }
 
+// accWidth: the number of bytes a load / store instruction accesses (0: not a memory access).
+func accWidth(i *Instruction) int {
+	switch i.opcode {
+	case OpcodeLoad:
+		switch i.typ {
+		case TypeI32, TypeF32:
+			return 4
+		case TypeI64, TypeF64:
+			return 8
+		case TypeV128:
+			return 16
+		}
+		return 1 << 20 // (unknown type: no width can be claimed)
+	case OpcodeUload8, OpcodeSload8, OpcodeIstore8:
+		return 1
+	case OpcodeUload16, OpcodeSload16, OpcodeIstore16:
+		return 2
+	case OpcodeUload32, OpcodeSload32, OpcodeIstore32:
+		return 4
+	case OpcodeStore:
+		return int(i.u1 >> 35)
+	}
+	return 0
+}
+
 func b2g(b bool) int {
 	if b {
 		return 1
@@ -58,10 +83,11 @@ func b2g(b bool) int {
 //@   ensures[load] (raw.opcode == OpcodeLoad ==> gr("loadPtr") == int(raw.v) && gr("loadOff") == int(raw.u1) && gr("loadRet") == int(raw.rValue)) && (raw.opcode != OpcodeLoad ==> gr("loadPtr") == old(gr("loadPtr")) && gr("loadOff") == old(gr("loadOff")) && gr("loadRet") == old(gr("loadRet")))
 //@   ensures[value-ids-are-fresh] verif_ghost_map_old("M:uext32", uint64(raw.rValue)) == 0
 //@   ensures[uext-map] verif_ghost_map_upd("M:uext32", uint64(raw.rValue), isUExt32(raw), 1) && verif_ghost_map_upd("M:uextArg", uint64(raw.rValue), isUExt32(raw), uint64(raw.v))
+//@   ensures[access] (accWidth(raw) != 0 ==> gr("accW") == accWidth(raw) && gr("accOff") == int(uint32(raw.u1))) && (accWidth(raw) == 0 ==> gr("accW") == old(gr("accW")) && gr("accOff") == old(gr("accOff")))
 //@   ensures[exit-check] gr("exitChecks") == old(gr("exitChecks")) + old(b2g(isExitCodeCheck(raw)))
 //@   ensures[oob] isOOBCheck(raw) ==> gr("oobChecks") == old(gr("oobChecks")) + 1 && gr("oobCode") == int(raw.u1) && gr("oobLen") == old(gr("icmpX")) && gr("oobAddX") == old(gr("iaddX")) && gr("oobAddY") == old(gr("iaddY")) && gr("oobArg") == old(gr("uextArg")) && gr("oobCeil") == old(gr("iconstVal")) && gr("oobViaExt") == old(b2g(gr("iaddX") == gr("uextRet") && gr("uextFT") == 32<<8|64)) && gr("oobViaConst") == old(b2g(gr("iaddY") == gr("iconstRet")))
 //@   ensures[not-oob] !isOOBCheck(raw) ==> gr("oobChecks") == old(gr("oobChecks")) && gr("oobCode") == old(gr("oobCode")) && gr("oobLen") == old(gr("oobLen")) && gr("oobAddX") == old(gr("oobAddX")) && gr("oobAddY") == old(gr("oobAddY")) && gr("oobArg") == old(gr("oobArg")) && gr("oobCeil") == old(gr("oobCeil")) && gr("oobViaExt") == old(gr("oobViaExt")) && gr("oobViaConst") == old(gr("oobViaConst"))
-//@   modifies raw.rValue, ghost("M:uext32"), ghost("M:uextArg"), ghost("loadPtr"), ghost("loadOff"), ghost("loadRet"), ghost("exitChecks"), ghost("uextArg"), ghost("uextRet"), ghost("uextFT"), ghost("iconstVal"), ghost("iconstRet"), ghost("iaddX"), ghost("iaddY"), ghost("iaddRet"), ghost("icmpX"), ghost("icmpY"), ghost("icmpC"), ghost("icmpRet"), ghost("oobChecks"), ghost("oobCode"), ghost("oobArg"), ghost("oobCeil"), ghost("oobLen"), ghost("oobAddX"), ghost("oobAddY"), ghost("oobViaExt"), ghost("oobViaConst")
+//@   modifies raw.rValue, ghost("M:uext32"), ghost("M:uextArg"), ghost("accW"), ghost("accOff"), ghost("loadPtr"), ghost("loadOff"), ghost("loadRet"), ghost("exitChecks"), ghost("uextArg"), ghost("uextRet"), ghost("uextFT"), ghost("iconstVal"), ghost("iconstRet"), ghost("iaddX"), ghost("iaddY"), ghost("iaddRet"), ghost("icmpX"), ghost("icmpY"), ghost("icmpC"), ghost("icmpRet"), ghost("oobChecks"), ghost("oobCode"), ghost("oobArg"), ghost("oobCeil"), ghost("oobLen"), ghost("oobAddX"), ghost("oobAddY"), ghost("oobViaExt"), ghost("oobViaConst")
 
 // (pure helpers, given a frame so that callers deep in an inlined chain keep the ghost registers)
 //@ func (v Value) Type() Type
@@ -69,5 +95,5 @@ func b2g(b bool) int {
 //@   modifies nothing
 //@ func (t Type) Bits() byte
 //@   may-panic t != TypeI32 && t != TypeF32 && t != TypeI64 && t != TypeF64 && t != TypeV128
-//@   ensures r0 == 32 || r0 == 64 || r0 == 128
+//@   ensures ((t == TypeI32 || t == TypeF32) ==> r0 == 32) && ((t == TypeI64 || t == TypeF64) ==> r0 == 64) && (t == TypeV128 ==> r0 == 128)
 //@   modifies nothing
